@@ -41,6 +41,9 @@ CONFIGS = {
               ["leptos_i18n_parser"]),
     "bare": (["-p", "leptos_i18n_parser", "--no-default-features", "--features", "json_files,suppress_key_warnings"],
              ["leptos_i18n_parser"]),
+    "hydrate": (["-p", "leptos_i18n", "--features",
+                 "leptos_i18n/plurals,leptos_i18n/format_nums,leptos_i18n/format_datetime,leptos_i18n/format_list,leptos_i18n/format_currency,leptos_i18n/dynamic_load,leptos_i18n/hydrate"],
+                ["leptos_i18n", "leptos_i18n_macro", "leptos_i18n_parser"]),
     "plain": (["-p", "leptos_i18n", "-p", "leptos_i18n_macro", "--features",
                "leptos_i18n/plurals,leptos_i18n/format_nums,leptos_i18n/format_datetime,leptos_i18n/format_list,leptos_i18n/format_currency,leptos_i18n/interpolate_display"],
               ["leptos_i18n", "leptos_i18n_macro", "leptos_i18n_parser"]),
